@@ -308,6 +308,24 @@ class Case:
         return None
 
 
+class ImplOnlyCase(Case):
+    """A script that is run on the implementation only and judged by its oracle alone (no model transcript): for inputs
+    whose size is out of reach of the executable model (tens of thousands of events). Supplementary: it can find a
+    failing input, it ties nothing to the model."""
+
+    def __init__(self, suite, lines, meta=None, timeout=60):
+        super().__init__(suite, lines, meta)
+        self.timeout = timeout
+
+    def run(self, patient=False):
+        self.model = ["-"] * len(self.lines)
+        self.impl = run_impl(self.suite, self.lines, timeout=self.timeout)
+        return self
+
+    def diff(self):
+        return None
+
+
 RERUNS = {"n": 0}
 
 
